@@ -286,7 +286,7 @@ def targeted_histories(disk_root: Path) -> list[dict]:
     out = []
     idx = 0
     for ca, cb, deep in ((False, True, False), (True, True, False), (True, False, False), (False, True, True), (True, True, True)):
-        for kind in ("replace", "update_bound", "update_defaults", "update_defaults_up"):
+        for kind in ("replace", "update_bound", "update_defaults", "update_defaults_up", "update_defaults_member"):
             for ctype in CACHE_TYPES:
                 idx += 1
                 # (a default on an UPSTREAM function's parameter would legitimately switch caching off for fb: the
@@ -295,11 +295,15 @@ def targeted_histories(disk_root: Path) -> list[dict]:
                 # (fa's parameter z is bound from the start: update_bound then CHANGES a bound value, the root arguments stay)
                 fa = fn("fa", ["x", "z"], ["a"], ca)
                 fa["bound"] = [["z", {"f": "@b0_z", "a": []}]]
+                if kind == "update_defaults_member":  # a default declared ONLY by fa for a parameter that fb reads too
+                    fa["params"] = fa["params"] + ["s"]
+                    fa["defaults"] = [["s", {"f": "@d_s", "a": []}]]
                 if kind == "update_defaults_up":     # a defaulted root argument that ONLY the upstream function reads
                     fa["params"] = fa["params"] + ["u"]
                     fa["defaults"] = [["u", {"f": "@d_u", "a": []}]]
                 tdesc = {"funcs": [fa] + ([fn("fm", ["a"], ["m"], False)] if deep else []) +
-                                  [fn("fb", ["m" if deep else "a", "y", "w"], ["b"], cb, [["w", {"f": "@d_w", "a": []}]])]}
+                                  [fn("fb", ["m" if deep else "a", "y", "w"] + (["s"] if kind == "update_defaults_member" else []),
+                                      ["b"], cb, [["w", {"f": "@d_w", "a": []}]])]}
                 ddir = str(disk_root / f"t{idx}") if ctype == "disk" else None
                 ckw = cache_kwargs_for(ctype, 0, False, ddir)
                 pc, pu = make_twins(tdesc, ctype, ckw)
@@ -313,6 +317,8 @@ def targeted_histories(disk_root: Path) -> list[dict]:
                 elif kind == "update_bound":
                     which = ("x", "@bnd_x") if idx % 2 else ("z", "@b1_z")      # bind a root argument / change a bound value
                     mut = {"op": "mutate", "kind": "update_bound", **blank, "f": "fa", "p": which[0], "v": {"f": which[1], "a": []}}
+                elif kind == "update_defaults_member":   # applied on the member function fa, not through the pipeline
+                    mut = {"op": "mutate", "kind": "update_defaults", **blank, "f": "fa", "p": "s", "v": {"f": "@d2_s", "a": []}}
                 elif kind == "update_defaults_up":
                     mut = {"op": "mutate", "kind": "update_defaults", **blank, "p": "u", "v": {"f": "@d2_u", "a": []}}
                 else:
